@@ -33,6 +33,9 @@ def run(ctx):
     R19.discharge_sites(ctx)
     from . import r_bridge as RB
     RB.bridge_arithmetic(ctx, "R01.j")
+    from . import r_word as RW
+    RW.build_mode_cfgs(ctx, "R01.k")
+    RW.no_shadowed_defaults(ctx, "R01.k")
     # geometry of derived matches: a wrong length of a split half / joined word is an out-of-range slice later on
     from . import r_join as RJ
     RJ.split_formula(ctx, "R01.i")
